@@ -770,8 +770,12 @@ func (r *Router) processEvent(ev *types.Event, reqID interface{}) error {
 			}
 
 			// If the span was kept, we want to generate a probe that we'll forward
-			// to a peer IF this span would have been forwarded.
-			ev.Data.MetaRefineryProbe.Set(true)
+			// to a peer IF this span would have been forwarded. The span itself
+			// is already queued for Honeycomb, so the probe must be a copy: marking
+			// or re-addressing the queued event would alter what Honeycomb receives.
+			probe := *ev
+			probe.Data.MetaRefineryProbe.Set(true)
+			ev = &probe
 			isProbe = true
 		}
 	}
